@@ -325,7 +325,9 @@ func (c *FnCtx) callByContract(frame *Frame, st *State, in ssa.Instruction, call
 		}
 	}
 	short := key[strings.LastIndex(key, "/")+1:]
-	for _, r := range append(append([]*Clause{}, fc.Requires...), fc.RequiresLocked...) {
+	// requires_locked clauses are rely assumptions about lock-guarded state (justified by the
+	// client-side discipline stated in the ordinary preconditions); they are not call-site obligations
+	for _, r := range fc.Requires {
 		t, err := c.evalBool(env, r.Expr)
 		if err != nil {
 			c.errs = append(c.errs, fmt.Sprintf("%s:%d: requires %s at call: %v", r.File, r.Line, r.Label, err))
@@ -524,6 +526,7 @@ func (c *FnCtx) havocMapRow(st *State, mv Val) {
 		name := arrName("V", key, lf.Path, lf.Sort)
 		c.heapSet(st, name, sto(c.heapGet(st.heap, name), mv.S, c.fresh("havoc.vals", "(Array Int "+lf.Sort+")")))
 	}
+	c.havocSums(st, mv.T, mv.S)
 }
 
 // everyArrays lists the heap arrays of a "modifies every T.f" item.
@@ -551,10 +554,8 @@ func (c *FnCtx) everyArrays(pkg *types.Package, m ModItem) []string {
 
 func (c *FnCtx) allArrays() map[string]bool {
 	out := map[string]bool{}
-	for n := range c.declared {
-		if strings.HasSuffix(n, "@0|") && len(n) > 4 {
-			out[strings.TrimSuffix(strings.TrimPrefix(n, "|"), "@0|")] = true
-		}
+	for n := range c.knownArrays {
+		out[n] = true
 	}
 	return out
 }
